@@ -124,7 +124,7 @@ def gen(rng):
     elif cmd == 'trash-list':
         argv = [cmd]
     elif cmd == 'trash-restore':
-        argv = [cmd, '/'] + rng.choice([[], ['--sort=path'], ['--overwrite']])
+        argv = [cmd, '/'] + rng.choice([[], ['--sort=path'], ['--overwrite'], ['--trash-dir', ''], ['--trash-dir=']])
         stdin = '0-%d\n' % (k + 3)     # replaced by the real count in check()
     elif cmd == 'trash-empty':
         argv = [cmd] + rng.choice([[], [], ['0'], ['30'], ['--dry-run'], ['-f']])
